@@ -9,8 +9,9 @@ set -u
 STRIDE="${1:-3}"; OFFSET="${2:-0}"
 HERE="$(cd "$(dirname "$0")/.." && pwd)"
 export GOFLAGS=-mod=mod GOPROXY=off GOSUMDB=off GOTOOLCHAIN=local
-export GOCACHE=/var/tmp/verif-mut-gocache-$STRIDE-$OFFSET
-BIN=/var/tmp/verif-mutate-bin-$STRIDE-$OFFSET
+TAG="${MUT_TAG:-$STRIDE-$OFFSET}"
+export GOCACHE=/var/tmp/verif-mut-gocache-$TAG
+BIN=/var/tmp/verif-mutate-bin-$TAG
 WT="$(mktemp -d /var/tmp/mutwt-XXXXXX)"; rmdir "$WT"
 OUT="$(mktemp -d /var/tmp/mutout-XXXXXX)"
 git -C /repo worktree add -q --detach "$WT" HEAD || exit 2
